@@ -86,9 +86,10 @@ func init() {
 			}
 			var want []byte
 			var werr error
+			var cb callerBuf
 			for i, n := range c.Writes {
 				chunk := payload(uint64(i)+1, n)
-				m, err := f.Write(chunk)
+				m, err := cb.write(f, chunk)
 				if err != nil {
 					werr = err
 					break
